@@ -1,7 +1,8 @@
+\* thorough tier, second scope: up to FOUR classes on label vectors of length <= 6 (the cases with four classes are replayed as well)
 SPECIFICATION Spec
 CONSTANTS
-  MaxN = 7
-  MaxK = 3
+  MaxN = 6
+  MaxK = 4
   NPat = 3
   LabelMap = "plus_start"
 INVARIANT InQuantifier
